@@ -69,9 +69,13 @@ class IdsetFam(Family):
                     for combo in itertools.product(names[:4], repeat=m):
                         lines.append(f"ms.combine c{k} " + " ".join(combo))
                         k += 1
+                # the same replica signing a second time: a different signature object (and, for ECDSA,
+                # different bytes) with the same signer must still count as an overlap
+                lines += ["ms.sign 1 s1b", "ms.sign 2 s2b", "ms.combine d0 s1 s1b", "ms.combine d1 s1 s2 s1b", "ms.combine d2 s1b s2 s1",
+                          "ms.combine d3 s2 s2b s3", "ms.combine d4 s1b s2b", "ms.contains d4 1"]
                 # nested: combine aggregates
                 lines += ["ms.combine a12 s1 s2", "ms.combine a34 s3 s4", "ms.combine a1234 a12 a34", "ms.combine bad a12 a1234",
-                          "ms.combine bad2 a12 s2", "ms.contains a1234 3", "ms.contains a12 3", "ms.combine all " + " ".join(names)]
+                          "ms.combine bad2 a12 s2", "ms.combine bad3 a12 s1b", "ms.combine bad4 s2b a1234", "ms.contains a1234 3", "ms.contains a12 3", "ms.combine all " + " ".join(names)]
                 for _ in range(30 if quick else 600):
                     pick = [rng.choice(names + ["a12", "a34", "a1234", "all"]) for _ in range(rng.randrange(1, 5))]
                     lines.append(f"ms.combine r{k} " + " ".join(pick))
